@@ -67,6 +67,18 @@ STRENGTHENED = {
     "C19-8": "C19 missed it: taints with percent-escaped metacharacters; a page showing their decoded form counts",
     "C19-9": "C19 missed it: names that are empty once commas and line breaks are removed",
     "C20-9": "C20 missed it: torrents created by hash with a display name, then completed with their info dictionary",
+    # fourth round (k = 10..12; C01 C02 C03 C05 C08 C09 C10 C12 C16 C17 C18 C19 only)
+    "C02-11": "no verdict: the change adds a parameter to the exported Torrent.Request, the harness does not build against it (BUILD FAILED, non-zero exit). Its signature-preserving twin is C17-12; C02 missed that one too: a new reader is cancelled while its first request waits behind a busy loop, then the loop must still answer",
+    "C02-12": "C02 missed it: a FUSE read that begins in a complete piece and runs into a missing one is interrupted, or the torrent deleted: a reply without error and with fewer bytes than asked, short of the end of the file, is a violation",
+    "C03-11": "C03 missed it: LRU passes over pieces that hold a buffer and no chunk yet (first bytes of a block arrived)",
+    "C05-10": "C05 missed it (C09 caught it): a peer serves honestly until storrent keeps a queue for it, then chokes and goes on sending data and rejects for the blocks around the ones on the wire",
+    "C08-12": "C08 missed it (C07 caught it): the reference initiator puts a prefix of the BT handshake, or nothing, in IA and sends the rest as payload in the selected mode",
+    "C09-12": "C09 missed it: rejects for every block of a piece (outstanding, queued again after an expiry, or never asked)",
+    "C10-12": "C10 missed it: family 'congested withdraw' (a peer actor parked with its mailbox filled to capacity - 1 / capacity while the last consumer withdraws; afterwards no seed may still hold an uncancelled request for the piece)",
+    "C12-12": "C12 missed it (C04 caught it): ut_metadata messages whose length prefix disagrees with their own dictionary or data",
+    "C16-11": "C16 missed it: the torrent stops while its mailbox is full (stop event queued behind a held loop, remaining slots filled), so the peers' last reports cannot be delivered; unchoke count must return to its base",
+    "C17-10": "C17 missed it: family 'stalled peer at deletion' (writer queue to a non-reading peer filled exactly, a pending interest change retried on every event, a burst of evictions, then a status query and the deletion)",
+    "C17-12": "C17 missed it: family 'reader cancelled while its request is queued' (loop parked, request queued, context cancelled, loop released; then every operation and Kill must return)",
 }
 rows = []
 for d in sorted(glob.glob(os.path.join(ROOT, "seeded", "C[0-9][0-9]-*"))):
